@@ -190,6 +190,7 @@ type world struct {
 	res   didsubject.Resolver
 	ctx   context.Context
 	order []string // insertion order of the method manager map (biases Go's map iteration)
+	methods []string // configuration of the node: the enabled DID methods (didmethods), in preferred order
 
 	// per operation
 	cur *opRun
@@ -259,7 +260,7 @@ func quiet(f func()) {
 
 // newWorld opens a storage engine on a copy of a migrated template directory (the repository's own migrations ran once
 // per process through storage.NewTestStorageEngineInDir; re-opening a migrated database only checks the version table).
-func newWorld(t *testing.T, base string, n int) *world {
+func newWorld(t *testing.T, base string, n int, methods []string) *world {
 	templateOnce.Do(func() {
 		templateDir = filepath.Join(base, "template")
 		if err := os.MkdirAll(templateDir, 0o755); err != nil {
@@ -274,7 +275,7 @@ func newWorld(t *testing.T, base string, n int) *world {
 	if err := copyDir(templateDir, dir); err != nil {
 		t.Fatal(err)
 	}
-	w := &world{t: t, dir: dir, ctx: audit.TestContext(), order: []string{"nuts", "web"}}
+	w := &world{t: t, dir: dir, ctx: audit.TestContext(), order: []string{"nuts", "web"}, methods: methods}
 	quiet(func() { w.eng = storage.NewTestStorageEngineInDir(t, dir) })
 	w.db = w.eng.GetSQLDatabase()
 	w.keys = nutsCrypto.NewDatabaseCryptoInstance(w.db)
@@ -306,14 +307,21 @@ func (w *world) restart() {
 	rootDID := did.MustParseDID("did:web:example.com")
 	webMgr := didweb.NewManager(rootDID, "iam", w.keys, w.db)
 	router.Register(didweb.MethodName, didsubject.Resolver{DB: w.db})
-	real := map[string]didsubject.MethodManager{"nuts": nutsMgr, "web": webMgr}
+	// only the enabled methods get a method manager (vdr.Module.Configure: config.DIDMethods)
+	all := map[string]didsubject.MethodManager{"nuts": nutsMgr, "web": webMgr}
+	real := map[string]didsubject.MethodManager{}
+	for _, m := range w.methods {
+		real[m] = all[m]
+	}
 	mm := map[string]didsubject.MethodManager{}
 	for _, m := range w.order {
-		mm[m] = &deco{method: m, real: real[m], w: w}
+		if real[m] != nil {
+			mm[m] = &deco{method: m, real: real[m], w: w}
+		}
 	}
 	// the SqlManager's own database handle is gated (scheduling points of concurrent requests, see conc_test.go)
-	w.mgr = didsubject.New(w.gatedDB(), mm, w.keys, []string{"web", "nuts"})
-	w.obs = didsubject.New(w.db, real, w.keys, []string{"web", "nuts"})
+	w.mgr = didsubject.New(w.gatedDB(), mm, w.keys, w.methods)
+	w.obs = didsubject.New(w.db, real, w.keys, w.methods)
 }
 
 func (w *world) onCommit(d *deco, ctx context.Context, ch orm.DIDChangeLog) error {
